@@ -19,6 +19,9 @@ def harnesses(tier):
             scenario_harness("flat4-window-nodeps-raises", Profile(
                 templates=("F4",), window="always", edges="none", perm="id", top="pure", raises="free",
                 crit_job=False), o, required_notes=req),
+            scenario_harness("flat3-window-jobs-added-later", Profile(
+                templates=("F3", "N12"), window="always", perm="id", crit_job=False, construct="add",
+                window_via="free", edges="none"), o, required_notes=req),
             scenario_harness("flat3-window-forever", Profile(
                 templates=("F3",), window="always", forever="free", perm="id", top="pure", crit_job=False),
                 o, required_notes=req),
